@@ -183,11 +183,11 @@ func c16CacheLifetime(c *Ctx) {
 
 func nonEmptyStringReturn(fn *ssa.Function) func(ssa.Instruction) bool {
 	return func(in ssa.Instruction) bool {
-		ret, ok := in.(*ssa.Return)
+		ret, ok := core.AsReturn(in)
 		if !ok || len(ret.Results) < 1 {
 			return false
 		}
-		v := core.ResolveLocalLoad(ret.Results[0])
+		v := core.ResolveLocalLoad(core.Res(ret, 0))
 		s, isC := core.ConstString(v)
 		return !(isC && s == "")
 	}
@@ -210,8 +210,8 @@ func c16Extractors(c *Ctx) {
 					continue
 				}
 				nRet++
-				ret := in.(*ssa.Return)
-				v := core.ResolveLocalLoad(ret.Results[0])
+				ret, _ := core.AsReturn(in)
+				v := core.ResolveLocalLoad(core.Res(ret, 0))
 				key := fmt.Sprintf("validated-lowercased:%s#%d", fk, nRet)
 				call, _, ok := core.CallResult(v)
 				if !ok || core.CalleeKey(call.Common()) != "strings.ToLower" {
@@ -344,7 +344,7 @@ func c16Extractors(c *Ctx) {
 }
 
 func sameStr(a, b ssa.Value) bool {
-	return core.ResolveLocalLoad(a) == core.ResolveLocalLoad(b)
+	return core.SameValue(a, b)
 }
 
 func c16Dispatch(c *Ctx) {
@@ -413,8 +413,8 @@ func c16Dispatch(c *Ctx) {
 		if core.IsCallTo(false, "(*dnsforward.Server).IsBlockedClient", "iface:(github.com/AdguardTeam/golibs/cache.Cache).Set")(in) {
 			return true
 		}
-		ret, ok := in.(*ssa.Return)
-		return ok && len(ret.Results) == 1 && core.IsNilConst(core.ResolveLocalLoad(ret.Results[0]))
+		ret, ok := core.AsReturn(in)
+		return ok && len(ret.Results) == 1 && core.IsNilConst(core.ResolveLocalLoad(core.Res(ret, 0)))
 	}
 	offB, nsB := core.UnguardedSinks(hb, sink, gOK)
 	r.Check(nOK > 0 && nsB >= 2 && len(offB) == 0, "C16-D4", "extraction-error-stops-request", p.FnPos(hb),
